@@ -260,7 +260,10 @@ class LoopParser(SubParser):
 
         # increment = 360 / counter, or
         # increment = 65536 / counter, based on unit_mode register
+        # If counter == 0, the body never runs and increment = 0.
         code_gen.add_instruction(OpCode.MOVE, LoopVar.FIRST, self._index_var)
+        code_gen.test_op(Operator.NOTEQ, LoopVar.COUNTER, 0)
+        counter_marker = code_gen.if_true_start()
         code_gen.test_op(Operator.EQ, Register.UNIT_MODE, UnitMode.RAW)
         marker = code_gen.if_true_start()
         code_gen.push(65536)
@@ -270,6 +273,9 @@ class LoopParser(SubParser):
         code_gen.push(LoopVar.COUNTER)
         code_gen.add_instruction(OpCode.OP, Operator.DIV)
         code_gen.add_instruction(OpCode.POP, LoopVar.INCR)
+        code_gen.if_else(counter_marker)
+        code_gen.add_instruction(OpCode.MOVEQ, 0, LoopVar.INCR)
+        code_gen.if_end(counter_marker)
         return True
 
     def _loop_test(self, code_gen) -> bool:
